@@ -186,8 +186,9 @@ func (msg MsgInitiateTokenDeposit) Validate(ac address.Codec) error {
 		return sdkerrors.ErrInvalidAddress.Wrap("to address cannot be empty")
 	}
 
-	// allow zero amount for creating account
-	if !msg.Amount.IsValid() {
+	// allow zero amount for creating account; the amount must fit the uint64
+	// the withdrawal hash commits to
+	if !msg.Amount.IsValid() || !msg.Amount.Amount.IsUint64() {
 		return ErrInvalidAmount
 	}
 
